@@ -16,6 +16,7 @@ RULE = ("Hypothesis: well-formed sequences on 2 channels with time/key signature
         "Distinct by case digest.")
 RULE = RULE + " Rounds e-g: self-concatenated inputs (pad, cutoff, set_channel), scale with the optional meta_sequence argument, channel pools, silent notes, SEQUENCE_CONTROL noise, far tick shifts."
 RULE = RULE + " Round i: one controller written twice on a tick; order-aware comparison of control-change values."
+RULE = RULE + " Round j: untied insertion order for cut-off."
 ASSUMPTIONS = ["cutoff: total duration is not part of the statement and is not compared",
                "set_channel is compared at event level (note pairing may change when two channels shared a pitch)"]
 TIERS = {"quick": dict(shards=8, examples=1500, alt_ppqn=[480, 7], alt_shards=3),
@@ -40,6 +41,11 @@ def _case(draw):
         # test_concatenate pins (DESIGN 11.6)
         spec["double"] = draw(st.sampled_from(["self", "fresh"]))
         d *= 2
+    if op == "cutoff" and draw(st.integers(0, 3)) == 0:
+        # cut-off works on the absolute view: it must not depend on the order in which same-tick messages were inserted
+        spec["route"], spec["perm"], spec["post"], spec["untied"] = "abs_ins", [0], None, True
+        spec.pop("split_waits", None)
+        spec.pop("double", None)
     case = {"seq": spec, "op": op}
     if op == "pad":
         case["n"] = draw(st.one_of(st.sampled_from([0, max(0, d - 1), d, d + 1, d + 17, 3 * d + 5]), st.integers(0, 400)))
